@@ -386,6 +386,23 @@ def cause_ok(ctx, f, an, bb, idx, s, var):
                         a0 = strip(pan.operand_expr(t.args[0], b2.idx, len(b2.stmts)))
                         if a0.k == "call" and a0.a[0].name == "sign_v4":
                             return True, ""
+            else:
+                # the closure's parent is a private helper that was spliced into its callers: look the closure up where it is used
+                from kernel import closure_of
+                uses = []
+                for h in ctx.facts.fns:
+                    if h.kind not in ("Fn", "AssocFn", "Closure"):
+                        continue
+                    han = None
+                    for b2, t in h.calls():
+                        if t.callee and t.callee.name == "map_err" and len(t.args) == 2:
+                            han = han or ctx.an(h)
+                            c = closure_of(han.operand_expr(t.args[1], b2.idx, len(b2.stmts)))
+                            if c is not None and c[0] == f.path:
+                                a0 = strip(han.operand_expr(t.args[0], b2.idx, len(b2.stmts)))
+                                uses.append(a0.k == "call" and a0.a[0].name == "sign_v4")
+                if uses and all(uses):
+                    return True, ""
             return False, "closure is not the map_err of a sign_v4 result"
         for d, cond, allowed, alll in cons:
             if "v4" in repr(cond):
@@ -429,7 +446,7 @@ def run(ctx, report):
     from common import Only
     from rules import c05
     # "the builder's pairs plus id=v4 and the signer's public key", "an update re-keys": the typestate verdicts of C05
-    c05.run(ctx, Only(report, {"TS": "TS", "WRAP": "WRAP", "BUILD": "KEYED-BUILD", "SIGN": "SIGN"}))
+    c05._own_run(ctx, Only(report, {"TS": "TS", "WRAP": "WRAP", "BUILD": "KEYED-BUILD", "SIGN": "SIGN"}))
     from rules import c07
     # "a failing call reports the error kind that matches its cause": in particular it reports an error at all
     c07.run(ctx, Only(report, {"ONCE": "ERRKIND"}, keys=lambda r, k: k.endswith("swallows-error")))
